@@ -244,6 +244,11 @@ func hasBoundVar(s string) bool {
 		if boundVarNames[w] || strings.HasPrefix(w, "q_") || strings.HasPrefix(w, "sfp_") || strings.HasPrefix(w, "Hp_") {
 			return true
 		}
+		// short lowercase identifiers (s1, h2, id, ...) are bound variables of axioms;
+		// every generated constant has the form <prefix>_<number> or a longer name
+		if len(w) <= 3 && w[0] >= 'a' && w[0] <= 'z' && !strings.Contains(w, "_") && !strings.HasPrefix(w, "bv") {
+			return true
+		}
 	}
 	return false
 }
